@@ -755,9 +755,10 @@ class Container:
             amount_to_add = Unit.convert(source, quantity, 'U')
         else:
             amount_to_add = Unit.convert(source, quantity, config.moles_storage_unit)
-        if self.volume + volume_to_add > self.max_volume:
+        new_volume = round(self.volume + volume_to_add, config.internal_precision)
+        if new_volume > self.max_volume:
             raise ValueError("Exceeded maximum volume")
-        self.volume = round(self.volume + volume_to_add, config.internal_precision)
+        self.volume = new_volume
         self.contents[source] = round(self.contents.get(source, 0) + amount_to_add, config.internal_precision)
 
     def _transfer(self, source_container: Container, quantity: str) -> Tuple[Container, Container]:
@@ -1404,7 +1405,8 @@ class Container:
 
         current_umoles = Unit.convert_from_storage(self.contents.get(solvent, 0), 'umol')
         required_umoles = Unit.convert_from_storage(self.contents[solute], 'umol') / new_ratio - current_umoles
-        new_volume = self.volume + Unit.convert(solvent, f"{required_umoles} umol", config.volume_storage_unit)
+        new_volume = round(self.volume + Unit.convert(solvent, f"{required_umoles} umol", config.volume_storage_unit),
+                           config.internal_precision)
 
         if new_volume > self.max_volume:
             raise ValueError("Dilute solution will not fit in container.")
